@@ -13,6 +13,12 @@ import reflect
 from symex import Violation
 
 HEADER_DERIVED = {'signature', 'headerSize', 'headerVersion', 'objectSize', 'objectType'}
+# layout-version selectors: not stored in the file; the reader re-derives the version class from objectSize
+# (checked against the reflection at generation time)
+SELECTORS = {'LinMessage2': {'apiMajor'}, 'EthernetStatus': {'apiMajor'}}
+# payload containers of a sub-object that only one variant of the type stores: compared when the writer
+# persisted them or the reader produced data, not otherwise
+VARIANT_CONTAINERS = {'SerialEvent': {'general.data', 'general.timeStamps'}}
 CAP = 4096
 
 
@@ -136,7 +142,9 @@ def make_rt_judge(cls, padding_types, default_obj=False):
     info = reflect.reflect()['classes'][cls]
     lv = leaves(cls)
     lens = length_fields(cls)
-    derived = set(HEADER_DERIVED) | set(lens)
+    derived = set(HEADER_DERIVED) | set(lens) | SELECTORS.get(cls, set())
+    for sname in SELECTORS.get(cls, ()):
+        assert any(lf.path == sname for lf in lv), 'selector %s.%s no longer exists' % (cls, sname)
     off_of = {lf.path: lf for lf in lv}
     pads = cls in padding_types
 
@@ -209,6 +217,9 @@ def make_rt_judge(cls, padding_types, default_obj=False):
             if lf.path in derived:
                 continue
             if lf.kind in ('vector', 'string'):
+                if lf.path in VARIANT_CONTAINERS.get(cls, ()) and not cb and not (J.cells_vars(ca) & bvars):
+                    st.flags['inactive'] = st.flags.get('inactive', 0) + 1
+                    continue
                 if len(ca) != len(cb):
                     _viol(ex, st, 'roundtrip', '%s.%s: %d payload bytes written, %d read back' % (
                         cls, lf.path, len(ca), len(cb)))
